@@ -151,6 +151,11 @@ func New(proxy string, conn net.Conn, addr netip.AddrPort,
 	return peer
 }
 
+// Close closes the connection of a peer that will never be run.
+func (p *Peer) Close() error {
+	return p.conn.Close()
+}
+
 func (p *Peer) MultipathTCP() bool {
 	c, ok := p.conn.(*net.TCPConn)
 	if !ok {
